@@ -16,16 +16,16 @@ What is restated here, and from where (`/repo/onnxscript/_internal/`):
 * Values are objects with a mutable `name` (`ir.Value`): the state keeps `vnames : id ↦ name`;
   nodes refer to value ids, so a later rename (declared subgraph output, `_outputs=` of
   `call_inline`, the re-qualification of inlined outputs) is seen by every use — as in Python.
-* `outNames` — `GraphBuilder._adapt_outputs` (`builder.py:493`): `count = graph.num_nodes()` **of the
-  builder's own graph**; one output `"{op}_{count}"`, several `"{op}_{count}_{i}"`, explicit strings as
+* `outNames` — `GraphBuilder._adapt_outputs` (`builder.py:493`): `count = self._node_count()` = nodes of the root graph
+  **and of all subgraphs of the builder tree** (commit e9794aa; before it the builder's own graph only); one output `"{op}_{count}"`, several `"{op}_{count}_{i}"`, explicit strings as
   given; all passed through `_qualify_value_name` (`"v_" + ".".join(non-empty scopes) + "." + name`).
 * node names — `_generate_node_name` (`"{op}_node_{count}"` through `_qualify_node_name`, `/`-joined),
   an explicit `_name=` is taken as is.
-* literals — `_get_or_create_constant` (`builder.py:598`): root-owned cache keyed by `(value, dtype)`,
+* literals — `_get_or_create_constant` (`builder.py:598`): root-owned cache keyed by `(repr(value), dtype)` (commit 610a39a),
   names `const_{value}_{dtype}` / `const_1d_{len(cache)}` (`tape_builder._constant_name`), registered as
   initializers of the **root** graph, never scope-qualified.  *Which* dtype a literal gets is C12's
   business: the trace carries the resolved dtype suffix and the numeric identity of the value
-  (`1 == 1.0 == True` are one key in Python).
+  (kept in the wire format; unused since the key is the `repr`).
 * `doInline` — `_inliner.instantiate` (`prefix + node.name`, `prefix + output.name`, formals ↦ actuals)
   followed by `call_inline`'s renaming: non-final outputs `_qualify_value_name(name)`, final outputs the
   qualified `_outputs` names or `_qualify_value_name(current name)` — **including a final output that is
@@ -61,6 +61,7 @@ structure FNode where
 structure Fn where
   name : String
   domain : String
+  overload : String
   formals : List String
   nodes : List FNode
   outputs : List String
@@ -85,6 +86,7 @@ structure Node where
   ins : List (Option Nat)
   outs : List Nat
   graphs : List Nat
+  overload : String
   deriving DecidableEq, Repr
 
 /-- one `GraphBuilder` with its `ir.Graph`. -/
@@ -96,8 +98,10 @@ structure Frame where
   outputs : List Nat
   deriving DecidableEq, Repr
 
+/-- cache key `(repr(value), dtype)` (commit 610a39a; before it `(value, dtype)`, under which
+    `2 == 2.0 == True·2` shared an entry). -/
 inductive CKey
-  | num (key : Int) (dt : String)
+  | num (repr : String) (dt : String)
   | ints (vals : List Int) (dt : String)
   deriving DecidableEq, Repr
 
@@ -170,7 +174,7 @@ def nameOf (st : St) (id : Nat) : String := st.vnames.getD id ""
 /-! ## literals -/
 
 def litKey : Lit → CKey
-  | .num _ k dt => .num k dt
+  | .num r _ dt => .num r dt
   | .ints v dt => .ints v dt
 
 def constName (l : Lit) (cacheLen : Nat) : String :=
@@ -205,14 +209,22 @@ def resolveArgs (st : St) : List Arg → St × List (Option Nat)
 
 /-- `_adapt_outputs`: one automatic output `{op}_{count}`, several `{op}_{count}_{i}`, explicit names
     qualified; `count` is the node count of the builder's **own** graph. -/
-def outKeys (f : Frame) (op : String) : Outs → List VKey
+def outKeys (f : Frame) (count : Nat) (op : String) : Outs → List VKey
   | .auto n =>
-    if n = 1 then [.auto (scopeParts f) op f.nodes.length none]
-    else (List.range n).map (fun i => .auto (scopeParts f) op f.nodes.length (some i))
+    if n = 1 then [.auto (scopeParts f) op count none]
+    else (List.range n).map (fun i => .auto (scopeParts f) op count (some i))
   | .named ns => ns.map (fun s => .raw (qualifyValue f s))
 
-def autoNodeName (f : Frame) (op : String) : String :=
-  qualifyNode f (op ++ "_node_" ++ toString f.nodes.length)
+def autoNodeName (f : Frame) (count : Nat) (op : String) : String :=
+  qualifyNode f (op ++ "_node_" ++ toString count)
+
+def sumNodes (fs : List Frame) : Nat := (fs.map (·.nodes.length)).sum
+
+/-- `GraphBuilder._node_count` (commit e9794aa): nodes of the root graph and of every subgraph built
+    through this builder tree so far.  `total = false` is the behaviour before that commit
+    (`self.graph.num_nodes()`, the builder's own graph only), kept for the refutation witness. -/
+def nodeCount (total : Bool) (st : St) : Nat :=
+  if total then st.cur.nodes.length + sumNodes st.stack + sumNodes st.done else st.cur.nodes.length
 
 def addNode (st : St) (n : Node) : St :=
   { st with cur := { st.cur with nodes := st.cur.nodes ++ [n] } }
@@ -224,27 +236,27 @@ def fail (st : St) (e : String) : St :=
 
 /-! ## the operations -/
 
-def doOp (st : St) (opType : String) (args : List Arg) (outs : Outs) (nodeName : Option String)
+def doOp (total : Bool) (st : St) (opType : String) (args : List Arg) (outs : Outs) (nodeName : Option String)
     (graphs : List Nat) : St :=
   let (st1, ins) := resolveArgs st args
-  let keys := outKeys st1.cur opType outs
+  let keys := outKeys st1.cur (nodeCount total st1) opType outs
   let nname := match nodeName with
     | some n => n
-    | none => autoNodeName st1.cur opType
+    | none => autoNodeName st1.cur (nodeCount total st1) opType
   let (st2, ids) := newValuesK st1 keys
-  let st3 := addNode st2 ⟨nname, "", opType, ins, ids, graphs⟩
+  let st3 := addNode st2 ⟨nname, "", opType, ins, ids, graphs, ""⟩
   { st3 with handles := st3.handles ++ ids.map some }
 
-def doCall (fns : List Fn) (st : St) (fi : Nat) (args : List Arg) (outs : Option Outs) : St :=
+def doCall (total : Bool) (fns : List Fn) (st : St) (fi : Nat) (args : List Arg) (outs : Option Outs) : St :=
   match fns[fi]? with
   | none => fail st "no-such-function"
   | some f =>
-    let keys := outKeys st.cur f.name (outs.getD (.auto f.outputs.length))
+    let keys := outKeys st.cur (nodeCount total st) f.name (outs.getD (.auto f.outputs.length))
     let (st1, ids) := newValuesK st keys
     let (st2, ins) := resolveArgs st1 args
-    let nname := autoNodeName st2.cur f.name
-    let st3 := addNode st2 ⟨nname, f.domain, f.name, ins, ids, []⟩
-    let fid := f.domain ++ ":" ++ f.name
+    let nname := autoNodeName st2.cur (nodeCount total st2) f.name
+    let st3 := addNode st2 ⟨nname, f.domain, f.name, ins, ids, [], f.overload⟩
+    let fid := f.domain ++ ":" ++ f.name ++ ":" ++ f.overload
     { st3 with handles := st3.handles ++ ids.map some,
                funcs := if fid ∈ st3.funcs then st3.funcs else st3.funcs ++ [fid] }
 
@@ -263,7 +275,7 @@ def cloneNode (st : St) (m : VMap) (np : String) (n : FNode) : St × VMap × Nod
     | none => none)
   let (st1, ids) := newValues st (n.outs.map (fun o => if o = "" then "" else np ++ o))
   let m1 := (n.outs.zip (ids.map some)) ++ m
-  (st1, m1, ⟨if n.name = "" then "" else np ++ n.name, n.domain, n.op, ins, ids, []⟩)
+  (st1, m1, ⟨if n.name = "" then "" else np ++ n.name, n.domain, n.op, ins, ids, [], ""⟩)
 
 def cloneNodes (st : St) (m : VMap) (np : String) : List FNode → St × VMap × List Node
   | [] => (st, m, [])
@@ -299,7 +311,7 @@ def isRef : Arg → Bool
   | .lit _ => false
   | _ => true
 
-def doInline (fns : List Fn) (st : St) (fi : Nat) (args : List Arg) (outs : Option (List String))
+def doInline (total : Bool) (fns : List Fn) (st : St) (fi : Nat) (args : List Arg) (outs : Option (List String))
     (pfx : String) : St :=
   match fns[fi]? with
   | none => fail st "no-such-function"
@@ -311,7 +323,7 @@ def doInline (fns : List Fn) (st : St) (fi : Nat) (args : List Arg) (outs : Opti
     else
       let desired := outs.map (fun o => o.map (qualifyValue st.cur))
       let st0 := if pfx = "" then st else pushScope st pfx
-      let np := autoNodeName st0.cur f.name ++ "/"
+      let np := autoNodeName st0.cur (nodeCount total st0) f.name ++ "/"
       let (_, actuals) := resolveArgs st0 args
       let m0 : VMap := f.formals.zip actuals
       let (st1, m1, nodes) := cloneNodes st0 m0 np f.nodes
@@ -351,19 +363,25 @@ def doInput (st : St) (name : String) : St :=
   let (st1, id) := newValue st name
   { st1 with cur := { st1.cur with inputs := st1.cur.inputs ++ [id] }, handles := st1.handles ++ [some id] }
 
-def step (fns : List Fn) (st : St) : Item → St
+def step (total : Bool) (fns : List Fn) (st : St) : Item → St
   | .input n => doInput st n
-  | .op t a o nn g => doOp st t a o nn g
+  | .op t a o nn g => doOp total st t a o nn g
   | .push n => pushScope st n
   | .pop => popScope st
-  | .call f a o => doCall fns st f a o
-  | .inline f a o p => doInline fns st f a o p
+  | .call f a o => doCall total fns st f a o
+  | .inline f a o p => doInline total fns st f a o p
   | .beginSub g i => doBeginSub st g i
   | .endSub r d => doEndSub st r d
   | .output h n => doOutput st h n
 
 /-- the state after the whole trace; the root graph is `cur` when every `beginSub` was closed. -/
-def build (fns : List Fn) (tr : List Item) : St := tr.foldl (step fns) St.init
+def buildWith (total : Bool) (fns : List Fn) (tr : List Item) : St := tr.foldl (step total fns) St.init
+
+/-- the current code (names count nodes across the whole builder tree). -/
+def build (fns : List Fn) (tr : List Item) : St := buildWith true fns tr
+
+/-- the code before commit e9794aa (per-graph counter). -/
+def buildPrefix (fns : List Fn) (tr : List Item) : St := buildWith false fns tr
 
 /-! ## observations -/
 
